@@ -869,6 +869,18 @@ fn catalogue_inner(prop: &str, t: Tier, seed: u64, out: &mut Vec<Entry>) {
                     let mut c = Cfg::new(Size::uni(maxd, sup, 1), vec![PolySpec::new(sup + 2).hide(1)]); c.seed = seed;
                     let c2 = c.clone();
                     add(format!("{}/degree-vs-supported-hiding", name), format!("{:?}, {} coefficients, hiding 1", c.sz, sup + 2), Box::new(move || c17::degree_too_large::<$S>(&c2)));
+                    let mut c = Cfg::new(Size::uni(maxd, sup, 0), vec![PolySpec::new(sup + 2)]); c.seed = seed;
+                    let c2 = c.clone();
+                    add(format!("{}/open-degree-vs-supported", name), format!("{:?}, {} coefficients, committed under a key trimmed to max_degree, opened under the key trimmed to supported", c.sz, sup + 2), Box::new(move || c17::open_too_large::<$S>(&c2)));
+                    if name != "ipa" {
+                        // a combination mixing a degree-bounded polynomial with other terms is outside the domain
+                        let mut c = Cfg::new(Size::uni(maxd, sup, 0), vec![PolySpec::new(2).conc().bound(sup - 1), PolySpec::new(2).conc()]); c.seed = seed; c.npoints = 1;
+                        for (tag, lc) in [("lc-degbound-mixed", vec![T::P(1), T::P(0)]), ("lc-degbound-mixed-const", vec![T::P1(0), T::One, T::P(1)])] {
+                            let c2 = c.clone();
+                            let shape = LcShape { lcs: vec![lc], queries: vec![(0, 0)] };
+                            add(format!("{}/{}", name, tag), format!("{:?}; {:?}", c.sz, shape), Box::new(move || c06::run::<$S>(&c2, &shape, Pert::ExpectDegBoundErr, false)));
+                        }
+                    }
                     if name != "ipa" {
                         for (tag, h) in [("hiding-above-key", 2usize), ("hiding-far-above-key", 4), ("hiding-zero", 0)] {
                             let mut c = Cfg::new(Size::uni(maxd, sup, 1), vec![PolySpec::new(2).hide(h)]); c.seed = seed;
@@ -1129,8 +1141,11 @@ fn catalogue_inner(prop: &str, t: Tier, seed: u64, out: &mut Vec<Entry>) {
             let maxk = if quick { 3 } else { 4 };
             for n in 1..=maxn {
                 for k in 0..=maxk {
-                    let mut en = e(format!("fold/n{}-k{}", n, k), t, "coefficients and folding challenges", format!("{} coefficients, {} challenges", n, k), move || c14::fold(n, k, 4, seed));
+                    let mut en = e(format!("fold/n{}-k{}", n, k), t, "coefficients, folding challenges, batching challenge eta", format!("{} coefficients, {} challenges; open_folding at 2 concrete points with n + 3 powers", n, k), move || c14::fold(n, k, 4, seed));
                     en.funcs = f.clone();
+                    // every coefficient's zero-ness forks a path in the bucket MSMs; the comparisons are identities,
+                    // so the larger shapes get a time budget instead of path exhaustion
+                    if quick { en.lim.wall_s = 40.0; } else { en.lim.wall_s = 240.0; }
                     out.push(en);
                 }
             }
